@@ -317,6 +317,12 @@ func splitAnd(s string) []string {
 }
 
 func (t *FnTrans) obligeNamed(name, kind, goal, note string) {
+	if t.ct != nil && t.ct.Opts["only-ghost-asserts"] != "" && kind != "gassert" {
+		// the function is checked for its ghost assertions (an order / protocol statement) only: everything else -
+		// memory safety, lock discipline, frames - is abstracted: neither demanded nor assumed
+		t.abstr["only the ghost assertions are checked: "+kind+" obligations are not generated"] = true
+		return
+	}
 	if parts := splitAnd(goal); len(parts) > 1 && len(parts) <= 40 {
 		// one obligation per conjunct (each may use the earlier ones): smaller queries, sharper reports
 		for i, p := range parts {
